@@ -70,7 +70,7 @@ def cases(rng, tier):
             chain += bytes([0xC0 | (tgt >> 8) & 0x3F, tgt & 0xFF])
         out.append("NAME %s %x" % (bytes(chain).hex(), len(chain) - 2))
     # questions each pointing at the previous one (many names, each a chain)
-    for n in (50, 400) if tier == "quick" else (50, 400, 3000):
+    for n in (50, 400) if tier == "quick" else (50, 400, 800):
         msg = bytearray(b"\x00\x02\x00\x00" + n.to_bytes(2, "big") + b"\x00" * 6)
         prev = None
         for i in range(n):
